@@ -180,6 +180,43 @@ def main():
         src_ok + '   ascent::ascent_source! { good_src:\n      q(x) <-- e(x, _);\n   }\n   ascent::ascent! { struct P; include_source!(base_src); include_source!(good_src); }\n',
         '`ascent_source`s cannot contain `include_source!`')
 
+    # inner attributes of a program that also has an include_source! (such a program is only validated in its second, re-invoked pass)
+    uniq = [0]
+
+    def inc_src():
+        # ascent_source! defines an exported macro: its name must be unique in the twins crate
+        uniq[0] += 1
+        nm = 'wsrc%d' % uniq[0]
+        return nm, '   ascent::ascent_source! { %s:\n      relation e(i32, i32);\n      relation q(i32);\n      q(x) <-- e(x, _);\n   }\n' % nm
+
+    def inc_prog(macro, attrs, pos):
+        items = ['relation z(i32);', 'z(x) <-- q(x);']
+        nm, src = inc_src()
+        items.insert(pos, 'include_source!(%s);' % nm)
+        body = ''.join('      %s\n' % a for a in attrs) + ''.join('      %s\n' % i for i in items)
+        if macro in ('ascent', 'ascent_par'):
+            return src + '   ascent::%s! {\n%s   }\n' % (macro, body)
+        return src + '   pub fn run_it() -> usize {\n      let r = ascent::%s! {\n%s      };\n      r.q.len()\n   }\n' % (macro, body)
+    for m in macros_rule:
+        for pos in ([0, 1, 2] if tier == 'thorough' else [1]):
+            add('unknown_inner_attr_include', 'pos%d' % pos, m, inc_prog(m, ['#![frobnicate]'], pos), inc_prog(m, ['#![measure_rule_times]'], pos), 'unrecognized attribute')
+            add('attr_with_args_include', 'pos%d' % pos, m, inc_prog(m, ['#![measure_rule_times(3)]'], pos), inc_prog(m, ['#![measure_rule_times]'], pos), 'unexpected token in attribute')
+    for m, good_m in (('ascent', 'ascent_par'), ('ascent_run', 'ascent_run_par')):
+        add('irp_serial_include', 'x', m, inc_prog(m, ['#![inter_rule_parallelism]'], 0), inc_prog(good_m, ['#![inter_rule_parallelism]'], 0), 'attribute only allowed in parallel Ascent')
+    # the other violations next to an include_source! as well
+    for m in macros_rule:
+        def inc_rules(extra_decl, rule):
+            nm, src = inc_src()
+            body = '      include_source!(%s);\n      relation z(i32);\n%s      %s\n' % (nm, ''.join('      %s\n' % d for d in extra_decl), rule)
+            if m in ('ascent', 'ascent_par'):
+                return src + '   ascent::%s! {\n%s   }\n' % (m, body)
+            return src + '   pub fn run_it() -> usize {\n      let r = ascent::%s! {\n%s      };\n      r.q.len()\n   }\n' % (m, body)
+        add('undeclared_include', 'x', m, inc_rules([], 'z(x) <-- nope(x);'), inc_rules([], 'z(x) <-- q(x);'), 'relation `nope` is not defined')
+        add('arity_include', 'x', m, inc_rules([], 'z(x) <-- e(x);'), inc_rules([], 'z(x) <-- e(x, _);'), 'wrong arity for relation `e`')
+        add('strat_include', 'x', m, inc_rules([], 'z(x) <-- q(x), !z(x);'), inc_rules([], 'z(x) <-- q(x), !e(x, x);'), 'cannot be stratified')
+        add('ds_on_lattice_include', 'x', m, inc_rules(['#[ds(::ascent::rel)] lattice l(i32, i32);'], 'z(x) <-- q(x);'), inc_rules(['lattice l(i32, i32);'], 'z(x) <-- q(x);'),
+            '`lattice`s cannot have custom data structure providers')
+
     os.makedirs(out, exist_ok=True)
     members = []
     for w in wits:
